@@ -195,7 +195,7 @@ func specGenuineER6(s *icmpDriver, p *packets.FrameParser, t uint8) bool {
 //@ modifies s.mu, map(s.sentProbes), ghost clock, ghost wrN, ghost wrClock
 
 //@ func (*icmpDriver).ReceiveProbe
-//@ safety C09 C14
+//@ safety C09 C14 C08
 //@ requires[pre.nonnil]     s != nil && s.source != nil && s.parser != nil && s.parser.parserv4 != nil && s.parser.parserv6 != nil
 //@ requires[C10.recv.open]  selb(isOpen, ref(s.source))
 //@ requires[pre.past]       forall(k, 0, 256, s.sentProbes[k] <= now())
